@@ -1,5 +1,5 @@
 (** C06 - One live execution per task; instance ids strictly increase. *)
-From HQ Require Import Base.Prelude Cluster.Types Cluster.Core Cluster.Reactor Cluster.Worker Cluster.Server Cluster.Sys Cluster.Monitors Cluster.ProofsJob Cluster.ProofsCore Cluster.ProofsMore Cluster.ProofsWorker.
+From HQ Require Import Base.Prelude Cluster.Types Cluster.Core Cluster.Reactor Cluster.Worker Cluster.Server Cluster.Sys Cluster.Monitors Cluster.ProofsJob Cluster.ProofsCore Cluster.ProofsMore Cluster.ProofsWorker Cluster.BijFinal Cluster.NoPanicU0 Cluster.ExecU1 Cluster.ExecU15 Cluster.ExecU16 Cluster.ExecU17 Cluster.ExecU18.
 From Coq Require Import ZArith.
 Local Open Scope N_scope.
 
@@ -25,6 +25,39 @@ Proof. exact no_start_after_giveback. Qed.
 Theorem C06_new_worker_invariant : forall w rs rqs, WInv (mkWP w [] [] [] [] rs rs [] [] [] rqs [] []).
 Proof. exact WInv_new. Qed.
 
+(** Instance ids strictly increase: in the output of EVERY history (hypotheses on the inputs only:
+    [op_wf], [ops_ok]) two launches of the same task carry strictly increasing instance ids - on
+    whichever workers, with any number of retractions, rejects, redirects, cancels and worker
+    losses in between.  (The server re-sends a task with the same instance id only when the worker
+    confirmed it did not start it; the proof rests on the protocol invariant PROTO and on "at most
+    one copy of a task in the whole system".) *)
+Theorem C06_instances_increase : forall ops reserve maxfill s outs,
+  Forall op_wf ops -> ops_ok (init_sys reserve maxfill) ops = true -> run (init_sys reserve maxfill) ops = Ok (s, outs) ->
+  forall a l1 b l2 c, outs = a ++ OLaunch l1 :: b ++ OLaunch l2 :: c -> l_t l1 = l_t l2 -> l_inst l1 < l_inst l2.
+Proof. exact instances_increase. Qed.
+(** ... in the form of the executable trace monitor. *)
+Theorem C06_instances_increase_monitor : forall ops reserve maxfill s outs,
+  Forall op_wf ops -> ops_ok (init_sys reserve maxfill) ops = true -> run (init_sys reserve maxfill) ops = Ok (s, outs) ->
+  Monitors.instances_increase [] (map ILaunch (launches outs)) = true.
+Proof. exact instances_increase_monitor. Qed.
+
+(** One live execution: in every reachable state a task running on one worker process is neither
+    running on another nor even held by another (no compute message in flight to it, no backlog
+    entry) - for every task id, also of tasks the server no longer knows. *)
+Theorem C06_single_execution : forall ops reserve maxfill s outs,
+  Forall op_wf ops -> ops_ok (init_sys reserve maxfill) ops = true -> run (init_sys reserve maxfill) ops = Ok (s, outs) ->
+  forall p1 p2 x, In p1 (s_procs s) -> In p2 (s_procs s) -> p_id p1 <> p_id p2 ->
+    run_find (p_running p1) x <> None -> run_find (p_running p2) x = None /\ pc x p2 = O.
+Proof. exact single_execution. Qed.
+Theorem C06_single_execution_monitor : forall ops reserve maxfill s outs,
+  Forall op_wf ops -> ops_ok (init_sys reserve maxfill) ops = true -> run (init_sys reserve maxfill) ops = Ok (s, outs) ->
+  single_execution_ok s = true.
+Proof. exact single_execution_monitor. Qed.
+
 Print Assumptions C06_no_start_after_giveback.
 Print Assumptions C06_new_worker_invariant.
 Print Assumptions C06_retract_removes_from_backlog.
+Print Assumptions C06_instances_increase.
+Print Assumptions C06_instances_increase_monitor.
+Print Assumptions C06_single_execution.
+Print Assumptions C06_single_execution_monitor.
